@@ -344,8 +344,12 @@ class Report:
         for d in self._drift[:5]:
             print("MODEL-DRIFT %s %s" % (self.prop, json.dumps(d)[:300]))
         rc = EXIT_OK
+        rdir = os.path.join(EVID, "replays", self.prop)
+        if os.path.isdir(rdir):      # replays of earlier runs of this tier are stale now
+            for fn in os.listdir(rdir):
+                if fn.startswith("violation-%s-" % self.tier):
+                    os.remove(os.path.join(rdir, fn))
         if self.violations:
-            rdir = os.path.join(EVID, "replays", self.prop)
             os.makedirs(rdir, exist_ok=True)
             for i, v in enumerate(self.violations[:10]):
                 path = os.path.join(rdir, "violation-%s-%d.json" % (self.tier, i))
